@@ -4,6 +4,7 @@
 
 note      product: every name x octave x every interval shorthand of size 0..11 x {up, down} on a real Note,
           the inverse (down after up) from every target, Note.augment/diminish
+note_pair product: two transpositions in a row on one Note (every first step x every second step), also below octave 0
 octave    product: change_octave(d) / octave_up / octave_down from every octave
 lift      product: one operation at Track / Bar / NoteContainer level on every track of a zoo and of a generated
           family (every pattern of <= 3 entries over {note, chord, rest, empty container})
@@ -103,6 +104,14 @@ def run_note(case):
     if n.octave != octave:
         S.count("note_octave_label_changed")
     S.outcome((sh, up, n.name, n.octave - octave))
+    # the same transposition on a note that sounds on another channel with another velocity: same result, and the
+    # note keeps its channel and velocity
+    nd = Note(name, octave, velocity=90, channel=3)
+    nd.transpose(sh, up)
+    S.trans(1)
+    if (nd.name, nd.octave, nd.channel, nd.velocity) != (n.name, n.octave, 3, 90):
+        S.problem("Note(%r, %d, velocity=90, channel=3).transpose(%r, %s) -> name, octave, channel, velocity" % (name, octave, sh, up),
+                  [n.name, n.octave, 3, 90], [nd.name, nd.octave, nd.channel, nd.velocity], tags=tags)
     if up:
         # the inverse transition from the target
         target = (n.name, n.octave)
@@ -121,6 +130,36 @@ def run_note(case):
                 S.problem(site2 + " name", [name, P.canonical(name)], n.name, tags=tags)
             else:
                 S.count("note_round_trips_reduced")
+
+
+def run_note_pair(case):
+    """case = [name, octave, sh1, up1]: the first transposition, then every second transposition (shorthand x
+    direction) from its result -- results below octave 0 included."""
+    S = engine.S
+    name, octave, sh1, up1 = case
+    start = R.pitch_number(name, octave)
+    l1, n1 = R.transpose_model(name[0], start, sh1, up1)
+    first = Note(name, octave)
+    first.transpose(sh1, up1)
+    if not judge_note(S, "Note(%r, %d).transpose(%r, %s)" % (name, octave, sh1, up1), first, l1, n1):
+        return
+    mid = (first.name, first.octave)
+    if len(mid[0]) - 1 > MAX_ACC:
+        S.count("note_pairs_skipped_too_many_accidentals")
+        return
+    for sh2 in SH_ALL:
+        for up2 in (True, False):
+            l2, n2 = R.transpose_model(l1, n1, sh2, up2)
+            n = Note(name, octave)
+            n.transpose(sh1, up1)
+            n.transpose(sh2, up2)
+            S.trans(2)
+            site = "Note(%r, %d).transpose(%r, %s) [= %s-%d] .transpose(%r, %s)" % (name, octave, sh1, up1, mid[0], mid[1], sh2, up2)
+            if judge_note(S, site, n, l2, n2, {"sh": sh2, "up": up2, "name": mid[0], "octave": mid[1]}):
+                S.count("note_pairs_ok")
+                if mid[1] < 0 or n.octave < 0:
+                    S.count("note_pairs_below_octave_0")
+    S.outcome((sh1, up1, mid[0], mid[1] - octave))
 
 
 def run_accidental(case):
@@ -229,6 +268,9 @@ ZOO = [
     # 10: a tuned track (standard guitar) filled by from_chords: chords come out as fingerings that use open strings
     [{"key": "C", "meter": [4, 4], "entries": [], "from_chords": ["E", "A", "Em", "E"], "tuning": ["Guitar", "Standard tuning"]},
      {"key": "C", "meter": [4, 4], "entries": []}, {"key": "C", "meter": [4, 4], "entries": []}, {"key": "C", "meter": [4, 4], "entries": []}],
+    # 11: containers whose notes were set in place: a doubled unison, enharmonic pairs, notes not in pitch order
+    [{"key": "C", "meter": [4, 4], "entries": [_e("4", [["C##", 4], ["D", 4], ["F", 4]], "set"), _e("4", [["E", 4], ["E", 4]], "set"),
+                                                _e("4", [["A", 4], ["E", 4], ["Fb", 4]], "set"), _e("4", [["B#", 3], ["C", 4]], "set")]}],
     # 8: built with Track.from_chords from a sheet that repeats its chord symbols (every occurrence is its own chord)
     [{"key": "C", "meter": [4, 4], "entries": [_e("1", [["C", 4], ["E", 4], ["G", 4]], "nc")], "from_chords": ["C", "Am", "C", "Am"]},
      {"key": "C", "meter": [4, 4], "entries": [_e("1", [["A", 4], ["C", 5], ["E", 5]], "nc")]},
@@ -310,6 +352,12 @@ def build(desc):
                     ok = b.place_notes("%s-%d" % tuple(content[0]), v)
                 elif form == "list" and notes:
                     ok = b.place_notes(notes, v)
+                elif form == "set":
+                    # notes put in place one by one (nc[i] = Note): equal-sounding notes side by side, any order
+                    nc = NoteContainer([Note("C", i) for i in range(len(notes))])
+                    for i, x in enumerate(notes):
+                        nc[i] = x
+                    ok = b.place_notes(nc, v)
                 else:
                     ok = b.place_notes(NoteContainer(notes), v)
                 mb.append([[nm[0], R.pitch_number(nm, o)] for nm, o in content])
@@ -640,6 +688,7 @@ CLAUSES = {
     "note": run_note,
     "accidental": run_accidental,
     "octave": run_octave,
+    "note_pair": run_note_pair,
     "lift": run_lift,
     "history": run_history,
 }
@@ -654,6 +703,11 @@ def explore(ctx):
     ctx.bound("shorthands", SH_ALL)
     if ctx.want("note"):
         ctx.product("note", names, lambda nm: ([nm, o, sh, up] for o in octaves for sh in SH_ALL for up in (True, False)))
+    if ctx.want("note_pair"):
+        pn = ctx.pick(P.canon_names(1), P.names(2))
+        po = ctx.pick([0, 1, 4], [0, 1, 2, 4, 9])
+        ctx.bound("note_pair", {"names": len(pn), "octaves": po, "first and second step": "31 shorthands x up/down each"})
+        ctx.product("note_pair", pn, lambda nm: ([nm, o, sh, up] for o in po for sh in SH_ALL for up in (True, False)))
     if ctx.want("accidental"):
         ctx.serial("accidental", [[nm, o] for nm in names for o in octaves])
     if ctx.want("octave"):
@@ -668,7 +722,7 @@ def explore(ctx):
         depth = ctx.pick(3, 4)
         aset = ctx.pick("narrow", "narrow")
         # quick: the chord-only and the tuplet-value track (many notes, nothing structurally new) go one level less deep
-        depths = {i: (depth - 1 if (ctx.quick and i in (1, 3, 6, 7, 8, 9, 10)) else depth) for i in range(len(ZOO))}
+        depths = {i: (depth - 1 if (ctx.quick and i in (1, 3, 6, 7, 8, 9, 10, 11)) else depth) for i in range(len(ZOO))}
         ctx.bound("history_depth", {str(i): d for i, d in depths.items()})
         ctx.bound("history_actions", {"set": aset, "targets": {str(i): action_targets(i, aset) for i in range(len(ZOO))}, "ops": bfs_ops()})
         for i in range(len(ZOO)):
